@@ -678,6 +678,30 @@ Proof.
   destruct (sv_higher w ev); [|discriminate]. intros H; injection H as <- <- _; reflexivity.
 Qed.
 
+(* two sources give the same plugin: same (existing, new, error) returned and, on success, the
+   same name and metadata, the same answer of the installed plugin, every other plugin alike *)
+Definition same_plugin (tbl : table) (st : state) (ow : bool) (src1 src2 : source) : Prop :=
+  snd (install tbl st src1 ow) = snd (install tbl st src2 ow) /\
+  (r_err (snd (install tbl st src1 ow)) = None ->
+   exists n v, candidate tbl src1 = Some (n, v) /\ candidate tbl src2 = Some (n, v) /\
+     existing tbl (fst (install tbl st src1 ow)) n = Some (AOk n v) /\
+     existing tbl (fst (install tbl st src2 ow)) n = Some (AOk n v) /\
+     aremove n (fst (install tbl st src1 ow)) = aremove n (fst (install tbl st src2 ow))).
+
+Lemma mode_ok_set_exec m : mode_ok m = true -> mode_ok (N.lor m 64) = true.
+Proof.
+  intros H.
+  assert (Hall : forallb (fun k => implb (mode_ok k) (mode_ok (N.lor k 64))) (map N.of_nat (seq 0 512)) = true)
+    by (vm_compute; reflexivity).
+  rewrite forallb_forall in Hall.
+  assert (Hlt : (m < 512)%N).
+  { unfold mode_ok in H. apply andb_true_iff in H. destruct H as [H _].
+    apply andb_true_iff in H. destruct H as [H _]. apply N.ltb_lt. exact H. }
+  specialize (Hall m). rewrite H in Hall. apply Hall.
+  apply in_map_iff. exists (N.to_nat m). split; [apply N2Nat.id|].
+  apply in_seq. lia.
+Qed.
+
 Section Theorems.
   Hypothesis cpv_spec : forall v w,
     compare_plugin_version v w = if sv_valid v && sv_valid w then Some (prec_of v w) else None.
@@ -905,16 +929,9 @@ Section Theorems.
   Theorem source_independent_gen tbl st ow src1 src2 e :
     source_ok src1 = true -> source_ok src2 = true ->
     spec_exe src1 = Some e -> spec_exe src2 = Some e -> is_cand e = true ->
-    (* same (existing, new, error) *)
-    snd (install tbl st src1 ow) = snd (install tbl st src2 ow) /\
-    (* and, on success, the same plugin: same name, same answer, every other plugin left alike *)
-    (r_err (snd (install tbl st src1 ow)) = None ->
-     exists n v, candidate tbl src1 = Some (n, v) /\ candidate tbl src2 = Some (n, v) /\
-       existing tbl (fst (install tbl st src1 ow)) n = Some (AOk n v) /\
-       existing tbl (fst (install tbl st src2 ow)) n = Some (AOk n v) /\
-       aremove n (fst (install tbl st src1 ow)) = aremove n (fst (install tbl st src2 ow))).
+    same_plugin tbl st ow src1 src2.
   Proof.
-    intros Hw1 Hw2 Hs1 Hs2 Hce.
+    intros Hw1 Hw2 Hs1 Hs2 Hce. unfold same_plugin.
     destruct (spec_exe_located src1 e Hw1 Hs1 Hce) as [n [Hn L1]].
     destruct (spec_exe_located src2 e Hw2 Hs2 Hce) as [n2 [Hn2 L2]].
     rewrite Hn in Hn2. injection Hn2 as <-.
@@ -952,7 +969,7 @@ Section Theorems.
 
   (* the directory holds one executable file named notation-{name} (and whatever else):
      installing the directory or that file gives the same plugin *)
-  Theorem source_independent_exec tbl st ow base es f :
+  Lemma spec_exe_dir_exec base es f :
     source_ok (SDir base es) = true -> In f (top_files es) ->
     is_cand f = true -> is_exec f = true ->
     (forall g, In g (top_files es) -> is_cand g = true -> is_exec g = true -> g = f) ->
@@ -975,9 +992,10 @@ Section Theorems.
     destruct en as [g|dn fs|ln]; cbn [top_files] in Hin; [destruct Hin as [->|Hin]; [exact H1|]| |]; apply IH; assumption.
   Qed.
 
+
   (* the directory holds a single file named notation-{name}, not executable: Install makes it
      executable, and the result is that of installing the file once executable *)
-  Theorem source_independent_nonexec base es c :
+  Lemma spec_exe_dir_nonexec base es c :
     cands (top_files es) = [c] -> is_exec c = false ->
     spec_exe (SDir base es) = Some (set_exec c) /\ spec_exe (SFile (set_exec c)) = Some (set_exec c)
     /\ is_cand (set_exec c) = true.
@@ -985,6 +1003,36 @@ Section Theorems.
     intros Hc Hx. cbn [spec_exe]. fold (cands (top_files es)). rewrite Hc. cbn [filter]. rewrite Hx.
     rewrite is_exec_set_exec. repeat split.
     destruct (cands_in (top_files es) c) as [_ H]; [rewrite Hc; left; reflexivity|]. exact H.
+  Qed.
+
+  Theorem source_independent_exec tbl st ow base es f :
+    source_ok (SDir base es) = true -> In f (top_files es) ->
+    is_cand f = true -> is_exec f = true ->
+    (forall g, In g (top_files es) -> is_cand g = true -> is_exec g = true -> g = f) ->
+    same_plugin tbl st ow (SDir base es) (SFile f).
+  Proof.
+    intros Hwf Hin Hc Hx Hu.
+    destruct (spec_exe_dir_exec base es f Hwf Hin Hc Hx Hu) as [H1 [H2 H3]].
+    apply (source_independent_gen tbl st ow _ _ f); assumption.
+  Qed.
+
+  Lemma top_file_ok base es f : source_ok (SDir base es) = true -> In f (top_files es) -> file_ok f = true.
+  Proof.
+    intros Hwf Hin. cbn [source_ok] in Hwf. apply andb_true_iff in Hwf. destruct Hwf as [_ Hall].
+    induction es as [|en es IH]; [destruct Hin|].
+    cbn [forallb] in Hall. apply andb_true_iff in Hall. destruct Hall as [H1 H2].
+    destruct en as [g|dn fs|ln]; cbn [top_files] in Hin; [destruct Hin as [->|Hin]; [exact H1|]| |]; apply IH; assumption.
+  Qed.
+
+  Theorem source_independent_nonexec tbl st ow base es c :
+    source_ok (SDir base es) = true -> cands (top_files es) = [c] -> is_exec c = false ->
+    same_plugin tbl st ow (SDir base es) (SFile (set_exec c)).
+  Proof.
+    intros Hwf Hc Hx.
+    destruct (spec_exe_dir_nonexec base es c Hc Hx) as [H1 [H2 H3]].
+    apply (source_independent_gen tbl st ow _ _ (set_exec c)); try assumption.
+    cbn [source_ok]. unfold file_ok, set_exec. cbn [f_mode]. apply mode_ok_set_exec.
+    apply (top_file_ok base es c Hwf). apply (cands_in _ c). rewrite Hc. left. reflexivity.
   Qed.
 
   (* the copied files: those of the source, name by name and content by content; the mode of the
@@ -1029,7 +1077,7 @@ Section Theorems.
       pose proof (verdict_candidate _ _ _ _ _ _ _ Hv) as Hc.
       destruct (installed tbl st src ow _ _ Hwf Hi eq_refl) as [n' [v' [Hc' [_ [Hfind [_ [Hrem [_ [Hlist _]]]]]]]]].
       rewrite Hc in Hc'. injection Hc' as <- <-.
-      rewrite opt_meta_eqb_refl. cbn [opt_eqb]. rewrite meta_eqb_refl.
+      rewrite !opt_meta_eqb_refl.
       rewrite Hfind. cbn [opt_eqb]. rewrite pdir_eqb_refl.
       rewrite Hrem, state_eqb_refl.
       cbn [view_of v_list] in Hlist. apply mem_str_in in Hlist. rewrite Hlist.
@@ -1043,9 +1091,9 @@ Section Theorems.
     uninstall_ok st name (snd (uninstall st name)) (view_of tbl (fst (uninstall st name))) = true.
   Proof.
     unfold uninstall, uninstall_ok. destruct (valid_name name) eqn:Hvn; cbn [negb fst snd view_of v_tree].
-    - destruct (afind name st) eqn:Hf; cbn [fst snd is_none negb andb]; rewrite ?Hvn, ?Hf; cbn;
+    - destruct (afind name st) eqn:Hf; cbn [fst snd view_of v_tree is_none negb andb]; rewrite ?Hvn, ?Hf; cbn [is_none negb andb];
         rewrite state_eqb_refl; reflexivity.
-    - rewrite Hvn. cbn. rewrite state_eqb_refl. reflexivity.
+    - cbn [negb andb]. rewrite state_eqb_refl. reflexivity.
   Qed.
 
   Lemma steps_ok_run tbl : forall ops st, forallb op_ok ops = true ->
@@ -1054,7 +1102,7 @@ Section Theorems.
     induction ops as [|o ops IH]; intros st Hwf; [reflexivity|].
     cbn [forallb] in Hwf. apply andb_true_iff in Hwf. destruct Hwf as [Ho Hops].
     cbn [run_ops]. destruct (mstep tbl st o) as [st' res] eqn:Hm. cbn [steps_ok].
-    rewrite (IH st' Hops). cbn [s_view view_of v_tree]. rewrite andb_true_r.
+    cbn [s_view view_of v_tree]. rewrite (IH st' Hops). rewrite andb_true_r.
     unfold step_ok. cbn [s_view s_res]. rewrite view_ok_view_of. cbn [andb].
     destruct o as [src ow|name]; cbn [mstep] in Hm.
     - destruct (install tbl st src ow) as [s r] eqn:Hi. injection Hm as <- <-.
